@@ -84,7 +84,51 @@ def pt_replay_lines(unknown, _lines):
     return out
 
 
-def pt_plan(mix, n_quick, n_thorough, rule, design_quick, design_thorough, kinds="mapped,offset,recursive"):
+def ensure_stimuli(which):
+    """TLC-generated stimuli (every transition of MC_PT_stim*.cfg with its pre-state) for the
+    specification -> implementation replay; regenerated when the specification changes"""
+    import os, subprocess, sys
+    sys.path.insert(0, os.path.dirname(__file__))
+    import vlib
+    gen = vlib.VERIF + "/gen"
+    os.makedirs(gen, exist_ok=True)
+    out = "%s/stim_%s.ndjson" % (gen, which)
+    stamp = out + ".hash"
+    h = vlib.spec_hash()
+    if os.path.exists(out) and os.path.exists(stamp) and open(stamp).read() == h:
+        return out
+    cfg = {"t1": "MC_PT_stim.cfg", "rec": "MC_PT_stim_rec.cfg"}[which]
+    r = vlib.tlc("MC_PT", cfg, "stim_" + which, workers=8, timeout=1800, xmx="8g")
+    if "No error has been found" not in r["out"]:
+        sys.stderr.write(r["out"][-3000:])
+        raise vlib.ToolError("stimulus generation failed (%s)" % cfg)
+    raw = "%s/stim_%s.tlcout" % (gen, which)
+    open(raw, "w").write(r["out"])
+    rc = subprocess.call([sys.executable, vlib.VERIF + "/tools/stim2ndjson.py", raw, out])
+    os.remove(raw)
+    if rc != 0:
+        raise vlib.ToolError("stim2ndjson failed")
+    open(stamp, "w").write(h)
+    return out
+
+
+def stim_runs(tier, seed, salt):
+    """replay of TLC-generated transitions (pre-state injected) on the three mapper kinds"""
+    every = 60 if tier == "quick" else 1
+    runs = []
+    for kind, which in (("mapped", "t1"), ("offset", "t1"), ("recursive", "rec")):
+        def pre(_tp, which=which):
+            ensure_stimuli(which)
+        import vlib
+        runs.append({"name": "stim_%s_%d" % (kind, seed), "prof": "dev" if kind != "offset" or tier == "quick" else "rel",
+                     "pre": pre,
+                     "args": ["ptstim", "--mode", kind, "--in", "%s/gen/stim_%s.ndjson" % (vlib.VERIF, which),
+                              "--n", str(every), "--seed", str(seed + salt)],
+                     "vtimeout": 7200})
+    return runs
+
+
+def pt_plan(mix, n_quick, n_thorough, rule, design_quick, design_thorough, kinds="mapped,offset,recursive", salt=0):
     def mk(tier, seed):
         design = [{"module": "MC_PT", "cfg": c, "workers": 12, "timeout": 900} for c in design_quick]
         if tier == "thorough":
@@ -97,24 +141,26 @@ def pt_plan(mix, n_quick, n_thorough, rule, design_quick, design_thorough, kinds
                 runs.append({"name": "pt_%s_%d" % (mix, sd), "prof": prof,
                              "args": ["pt", "--prop", mix, "--mode", kinds, "--seed", str(sd), "--n", str(n)],
                              "vtimeout": 3600})
+        runs += stim_runs(tier, seed, salt)
         return {"design": design, "runs": runs, "trace_module": "Trace_PT", "level": "model_checking",
-                "rule": rule, "assumptions": PT_ASSUME, "replay_lines": pt_replay_lines}
+                "rule": rule + "; PLUS specification -> implementation replay: transitions of the MC_PT state graph (every explored (state, call) pair, printed by TLC) are replayed on the three mapper kinds with the pre-state injected into simulated physical memory (quick: every 60th transition, thorough: all 74 579 per configuration)",
+                "assumptions": PT_ASSUME, "replay_lines": pt_replay_lines}
     return mk
 
 
 PLANS.update({
     "C01": pt_plan("default", 7000, 60000,
                    "behaviours = seeded random call histories (30-120 calls of map/identity-map/unmap/update_flags/set_flags_p4-p2/clean_up/translate_page of the 3 sizes, nested and neighbouring pages from a small hot index set per behaviour incl. first/last page of each half; half of the calls aim at currently mapped pages) on MappedPageTable and OffsetPageTable; after each call the raw changed slots are compared with the specification and 3-4 probe addresses are translated (translate, translate_addr, translate_page vs. hardware walk vs. history); distinct = distinct (operation, arguments)",
-                   ["MC_PT_t1.cfg"], ["MC_PT_tiny.cfg"]),
+                   ["MC_PT_t1.cfg"], ["MC_PT_tiny.cfg"], salt=0),
     "C02": pt_plan("errors", 7000, 60000,
                    "as C01 with an operation mix that favours failing calls; the allocator fails at the 1st, 2nd or 3rd request of half of the map calls; for every call that returned an error the error kind must be the documented one (any error where the documentation is silent) and the raw table memory must be unchanged except allowed parent-flag widening / freshly linked zeroed tables; distinct = distinct (operation, arguments)",
-                   ["MC_PT_t1.cfg"], ["MC_PT_tiny.cfg"]),
+                   ["MC_PT_t1.cfg"], ["MC_PT_tiny.cfg"], salt=17),
     "C09": pt_plan("alloc", 7000, 60000,
                    "as C01 with an allocation-heavy mix over physical memory pre-filled with non-zero junk; the allocator hands out fresh, recycled (freed by clean_up, re-junked) and 2MiB/1GiB-aligned frames in random order; per call: the set of frames the mapper asked a pointer for (MappedPageTable; exact) must be tables of the hierarchy or just allocated, no other 8-byte slot of the arena may change, every non-zero slot of a new table must be one the call wrote, allocator requests = missing tables (<= 1/2/3), no alloc/dealloc elsewhere; distinct = distinct (operation, arguments)",
-                   ["MC_PT_t1.cfg"], ["MC_PT_tiny.cfg"]),
+                   ["MC_PT_t1.cfg"], ["MC_PT_tiny.cfg"], salt=31),
     "C10": pt_plan("clean", 7000, 60000,
                    "as C01 with a clean-up-heavy mix: clean_up and clean_up_addr_range with ranges that are empty/reversed, a single page, exactly one level-1/2/3 table, unaligned, spanning the canonical gap, ending at the last page, the whole space; half of the clean-ups are repeated immediately; freed set D must satisfy InsideEmpty <= D <= OverlapEmpty, each frame once, unlinked before release, translations unchanged, second call frees nothing; distinct = distinct (operation, arguments)",
-                   ["MC_PT_t1.cfg"], ["MC_PT_tiny.cfg"]),
+                   ["MC_PT_t1.cfg"], ["MC_PT_tiny.cfg"], salt=47),
 })
 
 
@@ -137,7 +183,11 @@ def cpu_plan(family, n_quick, n_thorough, rule, design=(), extra_runs=(), exhaus
                              "args": [family, "--seed", str(sd), "--n", str(n)]})
         for er in extra_runs:
             runs.append(er(tier, seed))
-        return {"design": [dict(d) for d in design], "runs": runs, "trace_module": "Trace_Cpu",
+        dz = [dict(d) for d in design]
+        if tier == "thorough":
+            dz += [{"module": d["module"], "cfg": d["cfg"].replace("tlbq", "tlb"), "workers": 16, "timeout": 7200, "xmx": "16g"}
+                   for d in design if "tlbq" in d["cfg"]]
+        return {"design": dz, "runs": runs, "trace_module": "Trace_Cpu",
                 "level": "model_checking", "rule": rule, "assumptions": CPU_ASSUME,
                 "exhaustive": exhaustive, "exhaustive_note": exhaustive_note,
                 "replay_lines": cpu_replay_lines}
@@ -175,6 +225,7 @@ PLANS.update({
                     design=({"module": "MC_Intr", "cfg": "MC_Intr.cfg", "workers": 4},)),
     "C11": cpu_plan("flush", 4000, 60000,
                     "tlb::flush on the canonical lattice + random; flush_all / MapperFlushAll::flush_all with CR3 contents incl. PCID bits; MapperFlush::flush for the 3 sizes; Pcid::new for all 65536 u16; flush_pcid for 4 kinds x boundary PCIDs (thorough: all 4096) x lattice addresses; InvlpgbFlushBuilder over 4KiB/2MiB ranges (empty, 1 page, multiples of count_max +-1, abutting the gap, spanning the gap, upper half, near the top) x count_max in {0,1,2,3,7,8,255,4096,65535,random} x pcid/asid/global/final/nested combinations: every trapped invlpg/invpcid/invlpgb/tlbsync/mov-cr3 operand is decoded by the specification; plus a page-table run whose every successful call must return a token naming the argument page; distinct = distinct (operation, arguments)",
+                    design=({"module": "MC_PT_tlb", "cfg": "MC_PT_tlbq.cfg", "workers": 8, "timeout": 900},),
                     extra_runs=(c11_pt_run,)),
 })
 
